@@ -17,28 +17,28 @@ CONFIGS = {
 }
 
 CB_SRC = {
-    1: 'fn cb1<\'s>(lex: &mut L<\'s>) -> bool { sel(lex) != 0 }',
-    2: 'fn cb2<\'s>(_lex: &mut L<\'s>) {}',
-    3: 'fn cb3<\'s>(_lex: &mut L<\'s>) -> logos::Skip { logos::Skip }',
-    4: 'fn cb4<\'s>(lex: &mut L<\'s>) -> Result<logos::Skip, ZErr> { if sel(lex) == 0 { Err(ZErr::Custom(1)) } else { Ok(logos::Skip) } }',
-    5: 'fn cb5<\'s>(_lex: &mut L<\'s>) -> TY { T::Alt }',
-    6: 'fn cb6<\'s>(lex: &mut L<\'s>) -> Result<TY, ZErr> { if sel(lex) == 0 { Err(ZErr::Custom(2)) } else { Ok(T::Alt) } }',
-    7: 'fn cb7<\'s>(lex: &mut L<\'s>) -> logos::Filter<TY> { if sel(lex) == 0 { logos::Filter::Skip } else { logos::Filter::Emit(T::Alt) } }',
-    8: 'fn cb8<\'s>(lex: &mut L<\'s>) -> logos::FilterResult<TY, ZErr> { match sel(lex) { 0 => logos::FilterResult::Skip, 1 => logos::FilterResult::Error(ZErr::Custom(3)), _ => logos::FilterResult::Emit(T::Alt) } }',
-    9: 'fn cb9<\'s>(lex: &mut L<\'s>) -> Option<()> { if sel(lex) == 0 { None } else { Some(()) } }',
-    10: 'fn cb10<\'s>(lex: &mut L<\'s>) -> Result<(), ZErr> { if sel(lex) == 0 { Err(ZErr::Custom(4)) } else { Ok(()) } }',
-    11: 'fn cb11<\'s>(lex: &mut L<\'s>) -> usize { lex.slice().len() }',
-    12: 'fn cb12<\'s>(lex: &mut L<\'s>) -> Option<usize> { if sel(lex) == 0 { None } else { Some(lex.slice().len()) } }',
-    13: 'fn cb13<\'s>(lex: &mut L<\'s>) -> Result<usize, ZErr> { if sel(lex) == 0 { Err(ZErr::Custom(5)) } else { Ok(lex.slice().len()) } }',
-    14: 'fn cb14<\'s>(lex: &mut L<\'s>) -> logos::Filter<usize> { if sel(lex) == 0 { logos::Filter::Skip } else { logos::Filter::Emit(lex.slice().len()) } }',
-    15: 'fn cb15<\'s>(lex: &mut L<\'s>) -> logos::FilterResult<usize, ZErr> { match sel(lex) { 0 => logos::FilterResult::Skip, 1 => logos::FilterResult::Error(ZErr::Custom(6)), _ => logos::FilterResult::Emit(lex.slice().len()) } }',
-    16: 'fn cb16<\'s>(_lex: &mut L<\'s>) {}',
-    17: 'fn cb17<\'s>(_lex: &mut L<\'s>) -> logos::Skip { logos::Skip }',
-    18: 'fn cb18<\'s>(lex: &mut L<\'s>) -> Result<(), ZErr> { if sel(lex) == 0 { Err(ZErr::Custom(7)) } else { Ok(()) } }',
-    19: 'fn cb19<\'s>(lex: &mut L<\'s>) -> Result<logos::Skip, ZErr> { if sel(lex) == 0 { Err(ZErr::Custom(8)) } else { Ok(logos::Skip) } }',
-    20: 'fn cb20<\'s>(lex: &mut L<\'s>) { bump1(lex) }',
-    21: 'fn cb21<\'s>(lex: &mut L<\'s>) -> usize { bump1(lex); lex.slice().len() }',
-    22: 'fn cb22<\'s>(lex: &mut L<\'s>) { bump1(lex) }',
+    1: 'fn cb1<\'s>(lex: &mut L<\'s>) -> bool { zoo_rt::called(); sel(lex) != 0 }',
+    2: 'fn cb2<\'s>(_lex: &mut L<\'s>) { zoo_rt::called();}',
+    3: 'fn cb3<\'s>(_lex: &mut L<\'s>) -> logos::Skip { zoo_rt::called(); logos::Skip }',
+    4: 'fn cb4<\'s>(lex: &mut L<\'s>) -> Result<logos::Skip, ZErr> { zoo_rt::called(); if sel(lex) == 0 { Err(ZErr::Custom(1)) } else { Ok(logos::Skip) } }',
+    5: 'fn cb5<\'s>(_lex: &mut L<\'s>) -> TY { zoo_rt::called(); T::Alt }',
+    6: 'fn cb6<\'s>(lex: &mut L<\'s>) -> Result<TY, ZErr> { zoo_rt::called(); if sel(lex) == 0 { Err(ZErr::Custom(2)) } else { Ok(T::Alt) } }',
+    7: 'fn cb7<\'s>(lex: &mut L<\'s>) -> logos::Filter<TY> { zoo_rt::called(); if sel(lex) == 0 { logos::Filter::Skip } else { logos::Filter::Emit(T::Alt) } }',
+    8: 'fn cb8<\'s>(lex: &mut L<\'s>) -> logos::FilterResult<TY, ZErr> { zoo_rt::called(); match sel(lex) { 0 => logos::FilterResult::Skip, 1 => logos::FilterResult::Error(ZErr::Custom(3)), _ => logos::FilterResult::Emit(T::Alt) } }',
+    9: 'fn cb9<\'s>(lex: &mut L<\'s>) -> Option<()> { zoo_rt::called(); if sel(lex) == 0 { None } else { Some(()) } }',
+    10: 'fn cb10<\'s>(lex: &mut L<\'s>) -> Result<(), ZErr> { zoo_rt::called(); if sel(lex) == 0 { Err(ZErr::Custom(4)) } else { Ok(()) } }',
+    11: 'fn cb11<\'s>(lex: &mut L<\'s>) -> usize { zoo_rt::called(); lex.slice().len() }',
+    12: 'fn cb12<\'s>(lex: &mut L<\'s>) -> Option<usize> { zoo_rt::called(); if sel(lex) == 0 { None } else { Some(lex.slice().len()) } }',
+    13: 'fn cb13<\'s>(lex: &mut L<\'s>) -> Result<usize, ZErr> { zoo_rt::called(); if sel(lex) == 0 { Err(ZErr::Custom(5)) } else { Ok(lex.slice().len()) } }',
+    14: 'fn cb14<\'s>(lex: &mut L<\'s>) -> logos::Filter<usize> { zoo_rt::called(); if sel(lex) == 0 { logos::Filter::Skip } else { logos::Filter::Emit(lex.slice().len()) } }',
+    15: 'fn cb15<\'s>(lex: &mut L<\'s>) -> logos::FilterResult<usize, ZErr> { zoo_rt::called(); match sel(lex) { 0 => logos::FilterResult::Skip, 1 => logos::FilterResult::Error(ZErr::Custom(6)), _ => logos::FilterResult::Emit(lex.slice().len()) } }',
+    16: 'fn cb16<\'s>(_lex: &mut L<\'s>) { zoo_rt::called();}',
+    17: 'fn cb17<\'s>(_lex: &mut L<\'s>) -> logos::Skip { zoo_rt::called(); logos::Skip }',
+    18: 'fn cb18<\'s>(lex: &mut L<\'s>) -> Result<(), ZErr> { zoo_rt::called(); if sel(lex) == 0 { Err(ZErr::Custom(7)) } else { Ok(()) } }',
+    19: 'fn cb19<\'s>(lex: &mut L<\'s>) -> Result<logos::Skip, ZErr> { zoo_rt::called(); if sel(lex) == 0 { Err(ZErr::Custom(8)) } else { Ok(logos::Skip) } }',
+    20: 'fn cb20<\'s>(lex: &mut L<\'s>) { zoo_rt::called(); bump1(lex) }',
+    21: 'fn cb21<\'s>(lex: &mut L<\'s>) -> usize { zoo_rt::called(); bump1(lex); lex.slice().len() }',
+    22: 'fn cb22<\'s>(lex: &mut L<\'s>) { zoo_rt::called(); bump1(lex) }',
 }
 
 
